@@ -8,6 +8,10 @@ CLAIMED = {
    technique='TLA+ state machine of the wrapper stack with a ghost episode ledger (EpisodeWrappers.tla) model-checked with TLC over all schedules; recorded per-member histories of the real wrappers, generate_unroll and Evaluator validated by EpisodeWrappersTrace.tla',
    text='TLC checks nine ledger invariants over every termination schedule x episode_length x action_repeat within the bounds; the real wrapper stacks (training.wrap order, envs.create order, EvalWrapper, DomainRandomizationVmapWrapper), acting.generate_unroll and acting.Evaluator run on a scripted environment whose batch members carry all schedules, and every member history must be a behaviour of the spec (all State fields compared after every step).',
    note='Trusted: TLC; the scripted Env (a real brax Env subclass) and its integer decoding; brax.v1 stubbed for import. Bounds: schedules 2^6, L<=4, R<=2 quick; 2^8, L<=6, R<=3 thorough; plus sampled long schedules with random actions.'),
+ 'C19': dict(level='model_checking', design='DESIGN.md §5 C19',
+   technique='executable exact (dyadic) TLA+ specification Gae.tla: TLC checks reverse-scan = defining-sum for all masks; every final state replayed bit-exactly into compute_gae',
+   text='TLC proves, for every termination/truncation mask pattern up to T=4 (5 thorough; sampled masks to T=12) and lattice data, that the reverse scan equals the defining GAE sum and its corollaries; all resulting (input, expected output) states are evaluated by the real compute_gae in float64 where dyadic arithmetic is exact, compared bit-for-bit, in [T,B] batches with distinct columns; gradients must vanish.',
+   note='Trusted: TLC; exactness of float64 on dyadic lattice values; data lattice is -2..2 (-5..5 thorough) with lambda, discount in {0, 1/2, 1} (plus quarters thorough) - arbitrary real coefficients are covered only through polynomial dependence.'),
 }
 NA = {
  'C03': 'property is about derivatives of a floating-point program vs. a finite-difference limit: no state, history or exact-arithmetic rendering for a TLA+ specification (DESIGN.md §6)',
